@@ -13,6 +13,7 @@ import (
 
 	"github.com/la5nta/wl2k-go/transport/ax25/agwpe"
 
+	"verif/internal/gen"
 	"verif/internal/harness"
 	"verif/internal/ref/agwsim"
 )
@@ -366,6 +367,13 @@ func (r *crun) body() {
 		}
 	}
 
+	// ---- second connection to the same station ------------------------------------------------
+	if c.Again && !c.Accept && c.End == "close" {
+		if !r.again() {
+			return
+		}
+	}
+
 	// ---- port close ------------------------------------------------------------------------
 	r.setStage("port-close")
 	r.tpDone = true
@@ -375,6 +383,120 @@ func (r *crun) body() {
 	}
 	r.sim.WaitLinkDown()
 	r.judgeHostFrames()
+}
+
+// again dials the same station a second time. The TNC's frames are sent one at a time on an otherwise idle link,
+// so the known whole-frame loss (a busy one-slot queue) cannot occur: a frame that has not reached Read after
+// a long wait although a LATER frame has, was lost by the library on an idle pipeline.
+func (r *crun) again() bool {
+	c := r.c
+	r.setStage("again-dial")
+	var conn2 net.Conn
+	var err error
+	if ps, pm := harness.Catch(func() { conn2, err = r.tp.DialContext(context.Background(), c.Remote, c.Digis...) }); ps != "" {
+		r.v.set(ps, "second DialContext(%q): %s", c.Remote, pm)
+		return false
+	}
+	if err != nil {
+		r.apiError("dial-failed", "second DialContext to the same station", err)
+		return false
+	}
+	r.st.label("again:second-connection-to-the-same-station")
+	sm := gen.NewSM(c.AgainSeed)
+	var frames [][]byte
+	for i := 0; i < 3; i++ {
+		f := make([]byte, 8+sm.Intn(40))
+		for j := range f {
+			f[j] = byte(sm.Next())
+		}
+		copy(f, fmt.Sprintf("[2nd-%d]", i))
+		frames = append(frames, f)
+	}
+	var mu sync.Mutex
+	var got []byte
+	var rerr error
+	prog := make(chan struct{}, 64)
+	rdone := make(chan struct{})
+	go func() {
+		defer close(rdone)
+		buf := make([]byte, 4096)
+		for {
+			var n int
+			var e error
+			if ps, _ := harness.Catch(func() { n, e = conn2.Read(buf) }); ps != "" {
+				mu.Lock()
+				rerr = fmt.Errorf("panic in Read: %s", ps)
+				mu.Unlock()
+				return
+			}
+			mu.Lock()
+			got = append(got, buf[:n]...)
+			if e != nil {
+				rerr = e
+			}
+			mu.Unlock()
+			select {
+			case prog <- struct{}{}:
+			default:
+			}
+			if e != nil {
+				return
+			}
+		}
+	}()
+	have := func() int { mu.Lock(); defer mu.Unlock(); return len(got) }
+	// waitFor waits (in 10 ms ticks of this process, at most n ticks) until the reader has total bytes
+	waitFor := func(total, ticks int) bool {
+		for i := 0; i < ticks && have() < total; i++ {
+			select {
+			case <-prog:
+			case <-time.After(10 * time.Millisecond):
+			}
+		}
+		return have() >= total
+	}
+	sent, lost := 0, -1
+	for i, f := range append(frames, []byte("[2nd-sentinel]")) {
+		r.setStage(fmt.Sprintf("again-frame%d", i))
+		time.Sleep(30 * time.Millisecond) // the link is idle: nothing of this connection is in flight
+		if i == len(frames) && lost < 0 {
+			break // the sentinel is only needed when the last real frame is missing
+		}
+		if err := r.sim.Send(agwsim.Frame{Port: uint8(c.Port), Kind: 'D', PID: 0xf0, From: c.Remote, To: c.MyCall, Data: f}, agwsim.Seg{}); err != nil {
+			r.apiError("tnc-link-lost", "sending a data frame of the second connection", err)
+			return false
+		}
+		if lost >= 0 {
+			// an earlier frame is missing: does this one arrive?
+			if waitFor(sent+len(f), 3000) {
+				r.v.set("second-connection-frame-lost", "second connection to %q on the same port: data frame %d (%d bytes) sent on an idle link never reached Read although the frame sent after it did (Read has %d bytes: %q)", c.Remote, lost, len(frames[lost]), have(), got)
+				return false
+			}
+			break // nothing arrives at all: not decidable here (reported as a hang by the caller's watchdog)
+		}
+		if waitFor(sent+len(f), 2000) {
+			sent += len(f)
+			continue
+		}
+		lost = i
+	}
+	mu.Lock()
+	g, e := append([]byte(nil), got...), rerr
+	mu.Unlock()
+	if lost < 0 {
+		want := bytes.Join(frames, nil)
+		if !bytes.Equal(g, want) || e != nil {
+			r.v.set("second-connection-stream", "second connection to %q: Read returned %q (err %v), the TNC sent %q", c.Remote, g, e, want)
+			return false
+		}
+	}
+	r.setStage("again-close")
+	if ps, pm := harness.Catch(func() { conn2.Close() }); ps != "" {
+		r.v.set(ps, "Close of the second connection: %s", pm)
+		return false
+	}
+	<-rdone
+	return true
 }
 
 func (r *crun) cleanup() {
